@@ -108,7 +108,42 @@ func (p *Prefixed) Run(cfg *RunCfg) {
 			}
 			w.Add(VL(VS("pack"), VN(int64(lim)), VB(ids), gz.TabVal(), g.Val()), VL(packObs, unpObs))
 			distinct.Add(human)
-		case mode < 14: // stream of frames
+		case mode >= 12 && mode < 14: // one frame arriving in chunks while the same instance sends
+			st.Count("mode:duplex")
+			socket.SetMessageSizeLimit(BigLim)
+			g := GenMessage(r, st, p.Profile)
+			if len(g.Body) > 20000 {
+				g.Body = g.Body[:20000]
+			}
+			out, res, _, _ := PackOne(p.PF, g, GenIds(r, false))
+			if res != "ok" {
+				out = []byte{0, 0, 0, 1, 0}
+			}
+			fr, end, _ := DecodeStream(p.PF, [][]byte{append([]byte(nil), out...)})
+			alone := "sfail"
+			if len(fr) == 1 && end == "sok" {
+				alone = fr[0]
+			}
+			og := GenMessage(r, st, p.Profile)
+			if len(og.Body) > 2000 {
+				og.Body = og.Body[:2000]
+			}
+			oids := GenIds(r, false)
+			busy, ok := Duplex(p.PF, Cuts(r, out), false,
+				func(pr socket.Proto) string { return UnpackOne(pr).Val },
+				func(pr socket.Proto) {
+					defer func() { recover() }()
+					pr.Pack(og.NewMessage(oids))
+				})
+			human := Clip(fmt.Sprintf("%s duplex bytes=%x", p.Name, out))
+			DuplexOracle(st, i, alone, busy, ok, human)
+			obs := VL(VL(), "sfail")
+			if ok && busy != "sfail" {
+				obs = VL(VL(busy), "sok")
+			}
+			w.Add(VL(VS("stream"), VN(BigLim), gz.TabVal(), VB(out)), obs)
+			distinct.Add(human)
+		case mode < 12: // stream of frames
 			st.Count("mode:stream")
 			socket.SetMessageSizeLimit(BigLim)
 			k := 1 + r.Intn(6)
